@@ -42,28 +42,34 @@ BinSearch(keys, probe) == BinL(SeqLess, keys, probe, 0, Len(keys))
 
 Sorted(keys) == \A i \in 1..(Len(keys) - 1) : SeqLess(keys[i], keys[i + 1])
 
-\* a set of byte strings as a sorted sequence
-SortKeys(S) == [i \in 1..Cardinality(S) |-> CHOOSE k \in S : Cardinality({j \in S : SeqLess(j, k)}) = i - 1]
-
-\* ------------------------------------------------------------------ the 26-key universe
-\* two 4-byte prefixes x 10 suffixes; 3 keys shorter than 4 bytes; 3 keys whose zero-padded 4-byte prefix ties with
-\* another key's ("pre1" itself; "pre\0" and "pre\0\0", which share the padded prefix of "pre")
+\* ------------------------------------------------------------------ the 26-key universe, in key order
+\* 3 keys shorter than 4 bytes; 3 keys whose zero-padded 4-byte prefix ties with another key's ("pre\0" and "pre\0\0"
+\* share the padded prefix of "pre"; "pre1" is the bare prefix of the first group); two 4-byte prefixes x 10 suffixes
 P1 == <<112, 114, 101, 49>>
 P2 == <<112, 114, 101, 50>>
-U26 == {P1 \o <<48 + j>> : j \in 0..9} \cup {P2 \o <<48 + j>> : j \in 0..9}
-       \cup {<<112>>, <<112, 114>>, <<112, 114, 101>>}
-       \cup {P1, <<112, 114, 101, 0>>, <<112, 114, 101, 0, 0>>}
+UOrder26 == << <<112>>, <<112, 114>>, <<112, 114, 101>>, <<112, 114, 101, 0>>, <<112, 114, 101, 0, 0>>, P1 >>
+            \o [j \in 1..10 |-> P1 \o <<47 + j>>] \o [j \in 1..10 |-> P2 \o <<47 + j>>]
+U26 == {UOrder26[i] : i \in DOMAIN UOrder26}
 \* every universe key and every gap: k ++ <<0>> is the immediate successor of k, so these probes fall into every gap
 \* that any subset of the universe can have; <<>> is below and <<255>> above everything
-ProbesFor(U) == U \cup {k \o <<0>> : k \in U} \cup {<<>>, <<255>>}
-Strs26 == ProbesFor(U26)
-\* SeqLess tabulated once over the strings that occur (TLC evaluates constants once; a table lookup is ~100 times
-\* cheaper than SeqLess).  OrdTableOk ties the table to SeqLess.
-OrdU == TLCEval([s \in Strs26 |-> Cardinality({t \in Strs26 : SeqLess(t, s)})])   \* TLCEval: tabulate now, not at every application
+ProbeSeq26 == << <<>> >>
+              \o Flatten([i \in DOMAIN UOrder26 |->
+                    IF i < Len(UOrder26) /\ UOrder26[i] \o <<0>> = UOrder26[i + 1] THEN <<UOrder26[i]>>
+                    ELSE <<UOrder26[i], UOrder26[i] \o <<0>> >>])
+              \o << <<255>> >>
+Strs26 == {ProbeSeq26[i] : i \in DOMAIN ProbeSeq26}
+\* the order of the strings that occur, tabulated (a table lookup is far cheaper for TLC than SeqLess)
+OrdU == [s \in Strs26 |-> CHOOSE i \in DOMAIN ProbeSeq26 : ProbeSeq26[i] = s]
 LtU(x, y) == OrdU[x] < OrdU[y]
-OrdTableOk == \A x, y \in Strs26 : LtU(x, y) <=> SeqLess(x, y)
-ProbeSeq26 == TLCEval(SortKeys(Strs26))
-UOrder26 == TLCEval(SortKeys(U26))
+\* the literals above are what they claim to be (evaluated once, on the initial state of every generating run)
+UniverseOk ==
+  /\ Len(UOrder26) = 26 /\ Cardinality(U26) = 26
+  /\ Sorted(UOrder26) /\ Sorted(ProbeSeq26)
+  /\ Strs26 = U26 \cup {k \o <<0>> : k \in U26} \cup {<<>>, <<255>>}
+  /\ \A x, y \in Strs26 : LtU(x, y) <=> SeqLess(x, y)
+  /\ Cardinality({k \in U26 : Len(k) < 4}) = 3
+  /\ Cardinality({k \in U26 : Len(k) = 5 /\ Prefix4(k) = P1}) = 10 /\ Cardinality({k \in U26 : Len(k) = 5 /\ Prefix4(k) = P2}) = 10
+  /\ \E x, y \in U26 : x # y /\ Len(x) >= 4 /\ Len(y) < 4 /\ Prefix4(x) = Prefix4(y)     \* a zero-padding tie
 
 \* keys: a sorted sequence of universe keys
 Case(keys) == [keys |-> keys, probes |-> [i \in DOMAIN ProbeSeq26 |-> [p |-> ProbeSeq26[i], r |-> SearchL(LtU, keys, ProbeSeq26[i])]]]
